@@ -23,7 +23,11 @@ def random_spec(rng, big=False):
     return {
         "R": rng.randint(1, 4 if not big else 6),
         "groups": rng.randint(0, 2),
-        "kernels": rng.randint(1, 3),
+        "kernels": rng.randint(0, 3),      # 0: with collectives, rank 0 then has device events but no compute kernel
+        # per-rank sub-directories with ONE base name (run/rank0/flex_trace.json, run/rank1/flex_trace.json, ...)
+        "layout": rng.choice(["flat", "flat", "subdirs"]),
+        # the last rank's file holds device events (transfers, collectives) but not a single compute kernel
+        "dma_only": rng.random() < 0.25,
         "seed": rng.randint(0, 10 ** 6),
         "host": rng.randint(2, 8),
         "overlap_depth": rng.choice([0, 1, 2, 3, 5]),
@@ -72,7 +76,13 @@ def build(spec):
         r = rk.r
         t_end = max([e[1]["ts"] for e in rk.events] + [HOST_EPOCH + 200.0]) - HOST_EPOCH
         # very short device slices: Exec phase of 1/16 us (32 cycles) and of exactly 0.1 us is not on the grid -> 1/16, 1/8
-        if spec.get("short"):
+        dma_only = bool(spec.get("dma_only")) and r == len(ranks) - 1
+        if dma_only:
+            rk.events = [p for p in rk.events if not p[0]["name"].endswith(("Cmpt Exec", "Cmpt Prep"))]
+            if not any("attr" in p[0] for p in rk.events):
+                rk.dev_event("stage_in DmaI", sc.TID_RECV, [150, 151, 160, 160, 161])
+                rk.dev_event("stage_out DmaO", sc.TID_SEND, [170, 170, 171, 180, 181])
+        if spec.get("short") and not dma_only:
             t0 = t_end + 5
             for j, d in enumerate([1 / 16, 1 / 8, 1 / 4]):
                 ts5 = [t0, t0, t0 + 2, t0 + 2 + d, t0 + 3 + d]
@@ -123,11 +133,12 @@ def build(spec):
                 evs.append(e)
         if spec.get("meta"):
             evs.insert(0, {"ph": "M", "name": "process_name", "pid": r, "ts": 0, "args": {"name": f"rank{r}"}})
-        files[f"trace_rank_{r}.json"] = evs
+        fname = f"rank{r}/flex_trace.json" if spec.get("layout") == "subdirs" else f"trace_rank_{r}.json"
+        files[fname] = evs
         for b, e in pairs:
             a = b.get("attr") or b.get("args")
             dur = (e["ts"] - b["ts"]) if e is not None else b["dur"]
             slices.append({"uid": a["uid"], "rank": r, "name": b["name"], "tid": b["tid"], "ts": b["ts"], "dur": dur,
-                           "device": "attr" in b, "file": f"trace_rank_{r}.json",
+                           "device": "attr" in b, "file": fname,
                            "user_keys": {"usr_note": a["usr_note"], "custom_top": 7}})
     return files, slices
